@@ -80,6 +80,21 @@ def run(ck):
             return False
         return True
 
+    def lambda_called_locked(lf, base):
+        """lf is a closure that is not run where it is written but handed to a library function which invokes it: true when it is
+        invoked somewhere and every invocation happens under a live guard on the same core expression's mutex (`this->core_` in a
+        base-class helper and in the derived class's closure are the same member of the same object)"""
+        lid = lf.id.split("#in:")[0]
+        calls_ = [(g_, c_) for g_ in funcs for c_ in g_.events("call") if (c_.get("callee") or "").split("#in:")[0] == lid and g_.id != lf.id]
+        if not calls_:
+            return False
+        for g_, c_ in calls_:
+            if g_.id == lf.parent or g_.is_lambda:
+                return False        # run in place: the ordinary lexical rule applies
+            if not lib.holds(ls_of(g_).get((c_.block, c_.idx)), MTX, base):
+                return False
+        return True
+
     for f in funcs:
         if f.base in EXEMPT_FUNCS:
             continue
@@ -119,6 +134,8 @@ def run(ck):
                 ok, why = True, "member helper called on this: every call site holds %s->mtx (checked at %d call sites)" % (base, len(prog.call_sites(f.base)))
             elif not lib.holds(ls.get((e.block, e.idx)), MTX, base) and root in {p_["name"] for p_ in f.params} and caller_locked(f, root):
                 ok, why = True, "helper working on its parameter '%s': every call site holds that core's mtx (checked at %d call sites)" % (root, len(prog.call_sites(f.base)))
+            elif f.is_lambda and not lib.holds(ls.get((e.block, e.idx)), MTX, base) and lambda_called_locked(f, base):
+                ok, why = True, "closure handed to a helper that invokes it while holding %s->mtx (every invocation checked)" % base
             else:
                 ok = lib.holds(ls.get((e.block, e.idx)), MTX, base)
                 why = "guard on %s->mtx held" % base if ok else "no live guard on %s->mtx (held: %s)" % (
